@@ -5,6 +5,7 @@
 #include "vf.h"
 
 #include <stdarg.h>
+#include <stddef.h>
 #include <stdlib.h>
 #include <string.h>
 
@@ -43,12 +44,17 @@ VF_NOSAN static void raw_zero(uint8_t *d, size_t n) { for (size_t i = 0; i < n; 
 
 /* ------------------------------------------------------------ allocator */
 #ifndef VF_SAN
-/* arena: [hdr 16][payload, 8-aligned][canary 8] ... ; exact-size LIFO free lists */
+/* arena: [hdr 16][payload, capacity = multiple of 8][canary 8] ... ; LIFO free lists per capacity.
+ * hdr.size is the CAPACITY of the block (fixed for its lifetime: the arena walk depends on it); while the block is live
+ * hdr.next_free holds the exact size requested.  A request is served from the list of its own rounded size, else from the
+ * smallest larger free block (bounded waste), else from the break.  The slack between the exact size and the capacity
+ * carries a pattern that is verified when the block is freed and by vf_check_canaries: an overflow by a single byte is seen. */
 typedef struct blk { uint32_t size; uint32_t state; uint32_t serial; uint32_t next_free; } blk;
 #define BLK_LIVE 0x4c495645u
 #define BLK_FREE 0x46524545u
 #define CANARY   0xC0FFEE11DEADBEA7ull
-#define NCLASS   64
+#define SLACK    ((uint8_t)(W.fill ^ 0x6E))      /* depends on the fill pattern: a read past the exact size differs between the two fill runs of C02 */
+#define NCLASS   512
 static struct {
     uint32_t brk;
     uint32_t serial;
@@ -57,30 +63,42 @@ static struct {
 } AH;
 static uint8_t arena[VF_ARENA_SIZE] __attribute__((aligned(16)));
 
-static inline uint32_t blk_span(uint32_t size) { return 16 + ((size + 7u) & ~7u) + 8; }
+static inline uint32_t blk_span(uint32_t cap) { return 16 + cap + 8; }
+#define BLK_EXACT(b) ((b)->next_free)
 
+static void *blk_take(uint32_t off, uint32_t sz) {
+    blk *b = (blk *)(arena + off);
+    b->state = BLK_LIVE; b->serial = AH.serial++; b->next_free = sz;
+    memset(arena + off + 16, W.fill, sz);
+    memset(arena + off + 16 + sz, SLACK, b->size - sz);
+    return arena + off + 16;
+}
 static void *arena_alloc(size_t size) {
-    uint32_t sz = (uint32_t)size;
+    uint32_t sz = (uint32_t)size, rsz = (sz + 7u) & ~7u;
+    int best = -1;
     for (uint32_t c = 0; c < AH.nclass; c++) {
-        if (AH.cls[c].size == sz && AH.cls[c].head) {
-            uint32_t off = AH.cls[c].head - 1;
-            blk *b = (blk *)(arena + off);
-            AH.cls[c].head = b->next_free;
-            b->state = BLK_LIVE; b->serial = AH.serial++; b->next_free = 0;
-            memset(arena + off + 16, W.fill, (sz + 7u) & ~7u);
-            return arena + off + 16;
-        }
+        if (!AH.cls[c].head || AH.cls[c].size < rsz) continue;
+        if (AH.cls[c].size == rsz) { best = (int)c; break; }
+        if (AH.cls[c].size <= 2 * rsz + 256 && (best < 0 || AH.cls[c].size < AH.cls[best].size)) best = (int)c;
     }
-    uint32_t span = blk_span(sz);
+    if (best >= 0) {
+        uint32_t off = AH.cls[best].head - 1;
+        AH.cls[best].head = ((blk *)(arena + off))->next_free;
+        return blk_take(off, sz);
+    }
+    uint32_t span = blk_span(rsz);
     if (size > VF_ARENA_SIZE || AH.brk + span > VF_ARENA_SIZE) vf_harness_error("arena exhausted (size %zu, brk %u)", size, AH.brk);
     uint32_t off = AH.brk; AH.brk += span;
     blk *b = (blk *)(arena + off);
-    b->size = sz; b->state = BLK_LIVE; b->serial = AH.serial++; b->next_free = 0;
-    memset(arena + off + 16, W.fill, (sz + 7u) & ~7u);
-    uint64_t can = CANARY; memcpy(arena + off + 16 + ((sz + 7u) & ~7u), &can, 8);
-    return arena + off + 16;
+    b->size = rsz;
+    uint64_t can = CANARY; memcpy(arena + off + 16 + rsz, &can, 8);
+    return blk_take(off, sz);
 }
 
+static int slack_bad(const blk *b, uint32_t off) {
+    for (uint32_t i = BLK_EXACT(b); i < b->size; i++) if (arena[off + 16 + i] != SLACK) return 1;
+    return 0;
+}
 static int arena_free(void *p) {
     uint8_t *q = (uint8_t *)p;
     if (q < arena + 16 || q >= arena + AH.brk) return -1;
@@ -89,28 +107,32 @@ static int arena_free(void *p) {
     blk *b = (blk *)(arena + off);
     if (b->state != BLK_LIVE) return -2;                 /* not a block start, or already freed */
     if (off + blk_span(b->size) > AH.brk) return -1;
-    uint64_t can; memcpy(&can, arena + off + 16 + ((b->size + 7u) & ~7u), 8);
-    if (can != CANARY) W.led.canary_bad++;
+    uint64_t can; memcpy(&can, arena + off + 16 + b->size, 8);
+    if (can != CANARY || slack_bad(b, off)) W.led.canary_bad++;
+    uint32_t exact = BLK_EXACT(b);
     b->state = BLK_FREE;
     /* poison freed payload so a use-after-free read changes behaviour visibly */
-    memset(arena + off + 16, (uint8_t)(W.fill ^ 0x7A), (b->size + 7u) & ~7u);
+    memset(arena + off + 16, (uint8_t)(W.fill ^ 0x7A), b->size);
     uint32_t c;
     for (c = 0; c < AH.nclass; c++) if (AH.cls[c].size == b->size) break;
     if (c == AH.nclass) {
-        if (AH.nclass == NCLASS) vf_harness_error("too many size classes");
-        AH.cls[c].size = b->size; AH.cls[c].head = 0; AH.nclass++;
+        /* a new capacity: take a fresh slot, else recycle a slot whose free list is empty; if every slot is in use the
+         * block stays unused until the next world reset */
+        if (AH.nclass < NCLASS) { AH.cls[c].size = b->size; AH.cls[c].head = 0; AH.nclass++; }
+        else { for (c = 0; c < NCLASS; c++) if (!AH.cls[c].head) break; if (c < NCLASS) AH.cls[c].size = b->size; }
     }
-    b->next_free = AH.cls[c].head; AH.cls[c].head = off + 1;
-    return (int)b->size;
+    if (c < NCLASS) { b->next_free = AH.cls[c].head; AH.cls[c].head = off + 1; } else b->next_free = 0;
+    return (int)exact;
 }
 
 int vf_check_canaries(void) {
     int bad = 0;
     for (uint32_t o = 0; o < AH.brk;) {
         blk *b = (blk *)(arena + o);
-        uint64_t can; memcpy(&can, arena + o + 16 + ((b->size + 7u) & ~7u), 8);
-        if (can != CANARY) bad++;
         if (b->state != BLK_LIVE && b->state != BLK_FREE) return 1000000;
+        uint64_t can; memcpy(&can, arena + o + 16 + b->size, 8);
+        if (can != CANARY) bad++;
+        if (b->state == BLK_LIVE && slack_bad(b, o)) bad++;
         o += blk_span(b->size);
     }
     return bad + (int)W.led.canary_bad;
@@ -119,7 +141,7 @@ int vf_check_canaries(void) {
 void vf_each_live(vf_block_cb cb, void *arg) {
     for (uint32_t o = 0; o < AH.brk;) {
         blk *b = (blk *)(arena + o);
-        if (b->state == BLK_LIVE) cb(arena + o + 16, b->size, b->serial, arg);
+        if (b->state == BLK_LIVE) cb(arena + o + 16, BLK_EXACT(b), b->serial, arg);
         o += blk_span(b->size);
     }
 }
@@ -456,12 +478,13 @@ void vf_trace_print(FILE *f) {
 /* ------------------------------------------------------- snapshot / canon */
 #ifndef VF_SAN
 vf_snap *vf_snapshot(const void *model, size_t model_size) {
-    size_t n = sizeof AH + AH.brk + core_bss_size + core_data_size + sizeof W.now_ms + sizeof W.led + sizeof W.env + model_size;
+    size_t ahn = offsetof(__typeof__(AH), cls) + (size_t)AH.nclass * sizeof AH.cls[0];      /* only the size classes in use */
+    size_t n = ahn + AH.brk + core_bss_size + core_data_size + sizeof W.now_ms + sizeof W.led + sizeof W.env + model_size;
     vf_snap *s = malloc(sizeof *s + n);
     if (!s) vf_harness_error("out of memory for snapshot");
     s->size = (uint32_t)n;
     uint8_t *p = s->data;
-    memcpy(p, &AH, sizeof AH); p += sizeof AH;
+    memcpy(p, &AH, ahn); p += ahn;
     memcpy(p, arena, AH.brk); p += AH.brk;
     memcpy(p, __start_core_bss, core_bss_size); p += core_bss_size;
     if (core_data_size) { memcpy(p, __start_core_data, core_data_size); p += core_data_size; }
@@ -473,7 +496,8 @@ vf_snap *vf_snapshot(const void *model, size_t model_size) {
 }
 void vf_restore(const vf_snap *s, void *model, size_t model_size) {
     const uint8_t *p = s->data;
-    memcpy(&AH, p, sizeof AH); p += sizeof AH;
+    memcpy(&AH, p, offsetof(__typeof__(AH), cls)); p += offsetof(__typeof__(AH), cls);
+    memcpy(AH.cls, p, (size_t)AH.nclass * sizeof AH.cls[0]); p += (size_t)AH.nclass * sizeof AH.cls[0];
     memcpy(arena, p, AH.brk); p += AH.brk;
     memcpy(__start_core_bss, p, core_bss_size); p += core_bss_size;
     if (core_data_size) { memcpy(__start_core_data, p, core_data_size); p += core_data_size; }
@@ -497,7 +521,7 @@ static int find_block(uint64_t v) {                /* index of live block contai
     while (hi - lo > 1) { uint32_t mid = (lo + hi) / 2; if (cn_index[mid] <= off) lo = mid; else hi = mid; }
     blk *b = (blk *)(arena + cn_index[lo]);
     if (b->state != BLK_LIVE) return -1;
-    if (off < cn_index[lo] + 16 || off > cn_index[lo] + 16 + b->size) return -1;
+    if (off < cn_index[lo] + 16 || off > cn_index[lo] + 16 + BLK_EXACT(b)) return -1;
     return (int)lo;
 }
 
@@ -548,8 +572,8 @@ size_t vf_canon(uint8_t *out, size_t cap) {
         for (; qi < cn_qn; qi++) {
             blk *b = (blk *)(arena + cn_index[cn_queue[qi]]);
             if (pos + 6 > cap) vf_harness_error("canon buffer too small");
-            out[pos++] = 0xB1; out[pos++] = 0x0C; memcpy(out + pos, &b->size, 4); pos += 4;
-            pos = emit_region(arena + cn_index[cn_queue[qi]] + 16, b->size, out, pos, cap);
+            out[pos++] = 0xB1; out[pos++] = 0x0C; memcpy(out + pos, &BLK_EXACT(b), 4); pos += 4;
+            pos = emit_region(arena + cn_index[cn_queue[qi]] + 16, BLK_EXACT(b), out, pos, cap);
         }
         /* live but unreachable blocks, in address order (can only make the key finer) */
         uint32_t i;
